@@ -141,7 +141,21 @@ type Ident struct {
 }
 
 // keyID recomputes the library's key ID from PKIX bytes (hkdf-sha256 keyed by the key -> diceware words).
+var keyIDCache = map[string]string{}
+
 func keyID(pkix []byte) string {
+	if v, ok := keyIDCache[string(pkix)]; ok {
+		return v
+	}
+	v := keyIDSlow(pkix)
+	if len(keyIDCache) > 4096 {
+		keyIDCache = map[string]string{}
+	}
+	keyIDCache[string(pkix)] = v
+	return v
+}
+
+func keyIDSlow(pkix []byte) string {
 	rd := hkdf.New(sha256.New, pkix, pkix, pkix)
 	gen, _ := diceware.NewGenerator(&diceware.GeneratorInput{RandReader: rd})
 	words, err := gen.Generate(8)
@@ -276,3 +290,5 @@ func mustStruct(b []byte) *structpb.Struct {
 	_ = proto.Unmarshal(b, s)
 	return s
 }
+
+var contextBG = context.Background()
